@@ -708,10 +708,12 @@ def check_c15(tier, seed):
             dropped += ws.build_resilient(["constf"], prof)
     reports = [ws.run("constf", prof, "C15") for prof in profiles]
     cov = dict(evaluations=0, distinct_nontrivial=0, rule="", samples=[], cases=0, const_items=0, operations={}, field_kinds={}, profiles={}, non_const_operations=[], exhaustive=False,
-               dropped_cases_that_did_not_compile=[d for d in dropped if d["code"] != "E0015"][:20])
+               dropped_cases_that_did_not_compile=[d for d in dropped if d["part"] not in ("probe", "const-items")][:20])
     seen = set()
     for d in dropped:
-        if d["code"] in ("E0015", "E0658") or "const" in d["message"] and "cannot call non-const" in d["message"]:
+        # any error inside the const probe or inside the const items that evaluate it: the operation is not usable in a const context
+        # (E0015 non-const call, E0080 const evaluation failed, E0658 unstable const feature, ...); errors in the declaration itself are C09's
+        if d["part"] in ("probe", "const-items"):
             key = (d["case"], d["message"][:120])
             if key in seen:
                 continue
@@ -723,7 +725,7 @@ def check_c15(tier, seed):
                        part=d["part"], replay_kind="const-harness", tier=tier, seed=seed)
             import re
             mm = re.search(r"`([^`]*)`", m)
-            shape = re.sub(r"\d+", "N", mm.group(1).split("::")[-1]) if mm else "?"
+            shape = str(d["code"]) + " " + (re.sub(r"\d+", "N", mm.group(1).split("::")[-1]) if mm else "?")
             res.violations.append((dict(category="not-const", shape=shape), rec))
     nontriv = {}
     for r in reports:
